@@ -517,7 +517,7 @@ func c18Run(s *Shard) {
 		}
 		for _, imp := range imps {
 			for _, sc := range []float64{1, 0.5, 2, -1} {
-				for b := 0; b < 4; b++ {
+				for b := 0; b < 5; b++ {
 					if sc < 0 && (b == 1 || b == 3) {
 						continue
 					}
